@@ -344,14 +344,35 @@ structure JState where
   nextW : Nat := 0
   forged : Bool := false
 
+/-- keys a store section marks as deleted (light parse: `key=version^deleted^...`) -/
+def deletedKeysOf (snap : String) : List String :=
+  let st := (snap.splitOn "@").headD "-"
+  if st == "-" then [] else
+  (st.splitOn "|").filterMap fun en =>
+    match en.splitOn "=" with
+    | [k, rest] => if ((rest.splitOn "^").getD 1 "0") == "1" then some k else none
+    | _ => none
+
 def judge (conf : Conf) (evs obs : List String) : List String := Id.run do
   let mut js : JState := {}
+  -- keys that are the target of a `Delete` somewhere in the history: only these are exempt from the
+  -- convergence / acknowledged-CAS / watcher rules (a deleted key is deliberately not revived on
+  -- nodes that never had it); every other key must behave as if no Delete had happened
+  let delKeys : List String := evs.filterMap fun ev => match ev.splitOn "!" with
+    | ["del", _, k] => some k
+    | _ => none
   for (ev, ob) in evs.zip obs do
     let e := ev.splitOn "!"
     let o := ob.splitOn "!"
     if ob.startsWith "PANIC" then
       js := { js with bad := s!"panic:{e.headD ""}" :: js.bad }
       continue
+    -- no node ever marks a key deleted that nobody deleted
+    if !js.forged then
+      for part in o do
+        if part.contains '@' then
+          for k in deletedKeysOf part do
+            if !delKeys.contains k then js := { js with bad := s!"live-key-marked-deleted:{k}" :: js.bad }
     match e, o with
     | ["cas", n, key, _], [_, _, res, snap] =>
       if res == "ok" then
@@ -397,16 +418,18 @@ def judge (conf : Conf) (evs obs : List String) : List String := Id.run do
         else if k == "fin" then
           let sn := snaps.filterMap id
           -- (1) all nodes expose the same value for every key
-          if !conf.clash ∧ !conf.gc ∧ !conf.del ∧ !js.forged then
+          if !conf.clash ∧ !conf.gc ∧ !js.forged then
+            let viewOf (s : Snap) : List String :=
+              sortStr ((s.view.filter fun (k, _) => !delKeys.contains k).map fun (k, v) => s!"{k}={showVal v}")
             match sn with
             | [] => pure ()
             | s0 :: rest =>
-              let v0 := sortStr (s0.view.map fun (k, v) => s!"{k}={showVal v}")
-              if rest.any fun s => sortStr (s.view.map fun (k, v) => s!"{k}={showVal v}") != v0 then
+              let v0 := viewOf s0
+              if rest.any fun s => viewOf s != v0 then
                 js := { js with bad := "nodes-differ-after-sync" :: js.bad }
           -- (2) every acknowledged CAS is contained in every node's value
-          if !conf.gc ∧ !conf.del ∧ !js.forged then
-            for (_, key, v) in js.acks do
+          if !conf.gc ∧ !js.forged then
+            for (_, key, v) in js.acks.filter fun (_, key, _) => !delKeys.contains key do
               for s in sn do
                 match getE s.store key with
                 | some en => if !dominated v en.val then js := { js with bad := s!"acked-cas-not-visible:{key}" :: js.bad }
@@ -421,7 +444,7 @@ def judge (conf : Conf) (evs obs : List String) : List String := Id.run do
                 let watched := if isP then k.startsWith wkey else k == wkey
                 let cur := (lookup s.view k).map showVal
                 let (regVer, regView) := (lookup vers k).getD (0, "")
-                if watched ∧ (regVer != en.version ∨ some regView != cur) then
+                if watched ∧ !delKeys.contains k ∧ (regVer != en.version ∨ some regView != cur) then
                   let got := (js.wl.find? fun (w, k', _) => w == wid ∧ k' == k).map (·.2.2)
                   if got != cur then js := { js with bad := s!"watcher-not-called-with-final-value:{k}" :: js.bad }
     | _, _ => pure ()
